@@ -362,6 +362,19 @@ class RoundTrip(SubCheck):
                 check('fanout.getitem', o.fc['k'])
             if as_raw:
                 check('fanout.read', o.fc.read('k'))
+            # the sharded cache passes every argument of add() on as well
+            o.fc.delete('k')
+            if o.fc.add('k', fresh_value(), read=is_stream, tag='tg') is not True:
+                raise Violation('C01/fanout-add-refused', 'FanoutCache.add on an absent key returned False')
+            if as_obj:
+                check('fanout.add->get', o.fc.get('k'))
+                r = o.fc.get('k', tag=True)
+                check('fanout.add->get(tag)', r[0])
+                if r[1] != 'tg':
+                    raise Violation('C01/metadata', 'FanoutCache.add lost the tag: %r' % (r[1],))
+                check('fanout.add->pop', o.fc.pop('k'))
+            if as_raw and 'k' in o.fc:
+                check('fanout.add->read', o.fc.read('k'))
             if not is_stream:
                 # --- Deque -----------------------------------------------------------------------
                 dq = o.dq
